@@ -498,6 +498,7 @@ def run_gt_freq(cfg):
     the constructor computes d = sqrt(exp(A) - exp(B)); decided in the log domain on the extracted terms:
     B == 2 log(alpha)  and  A == (2/n)(log c + log (n-1)! - log eps)   (then alpha^2 + d^2 = exp(A) and log|H| = log eps)."""
     order, erb = cfg['order'], cfg['erb']
+    l2 = bool(cfg.get('l2', False))      # C07 itself excludes L2 scaling; C06 uses this obligation for both settings
     ns = fc.load_filters(decimal=False)
     fc.stub_alias(ns)
     fc.stub_newton(ns)
@@ -512,7 +513,7 @@ def run_gt_freq(cfg):
         low, high = z3.Real('low_hz'), z3.Real('high_hz')
         c.assume(low >= 0, low < high, high <= 4000)
         try:
-            b = fc.construct(ns, 'ComplexGammatoneFilterBank', SReal(low), SReal(high), 8000, 1, order=order, erb=erb)
+            b = fc.construct(ns, 'ComplexGammatoneFilterBank', SReal(low), SReal(high), 8000, 1, order=order, erb=erb, **(dict(scale_l2_norm=True) if l2 else {}))
         except Exception as e:
             symex.guard(e)
             return ('exception', '%s: %s' % (type(e).__name__, e))
@@ -524,20 +525,20 @@ def run_gt_freq(cfg):
             continue
         ob += 1
         if res[0] != 'ok':
-            viol.append(dict(kind='gt_freq', order=order, erb=erb, what=res[1], **{'class': 'gt_freq/exception'}))
+            viol.append(dict(kind='gt_freq', order=order, erb=erb, l2=l2, what=res[1], **{'class': 'gt_freq/exception'}))
             continue
         _, alpha, cc, d = res
         if not (z3.is_app(alpha) and alpha.decl().name() == 'EXP' and z3.is_app(cc) and cc.decl().name() == 'EXP'):
-            viol.append(dict(kind='gt_freq', order=order, erb=erb, what='structure: alpha / c are not exp(.)', **{'class': 'gt_freq/structure'}))
+            viol.append(dict(kind='gt_freq', order=order, erb=erb, l2=l2, what='structure: alpha / c are not exp(.)', **{'class': 'gt_freq/structure'}))
             continue
         la, lc = alpha.arg(0), cc.arg(0)
         sq = _apps([z3.simplify(d)], 'SQRT')
         if len(sq) != 1:
-            viol.append(dict(kind='gt_freq', order=order, erb=erb, what='structure: edge is not a square root', **{'class': 'gt_freq/structure'}))
+            viol.append(dict(kind='gt_freq', order=order, erb=erb, l2=l2, what='structure: edge is not a square root', **{'class': 'gt_freq/structure'}))
             continue
         exps = _apps([sq[0].arg(0)], 'EXP')
         if len(exps) != 2:
-            viol.append(dict(kind='gt_freq', order=order, erb=erb, what='structure: sqrt argument is not exp(A) - exp(B)', **{'class': 'gt_freq/structure'}))
+            viol.append(dict(kind='gt_freq', order=order, erb=erb, l2=l2, what='structure: sqrt argument is not exp(A) - exp(B)', **{'class': 'gt_freq/structure'}))
             continue
         # which is A (positive sign)?  sqrt argument == EXP(A) - EXP(B)
         e1, e2 = exps
@@ -549,14 +550,14 @@ def run_gt_freq(cfg):
             s_ = z3.Solver()
             s_.add(sq[0].arg(0) != e2 - e1)
             if check_sat(s_) != 'unsat':
-                viol.append(dict(kind='gt_freq', order=order, erb=erb, what='structure: sqrt argument is not exp(A) - exp(B)', **{'class': 'gt_freq/structure'}))
+                viol.append(dict(kind='gt_freq', order=order, erb=erb, l2=l2, what='structure: sqrt argument is not exp(A) - exp(B)', **{'class': 'gt_freq/structure'}))
                 continue
             A, B = e2.arg(0), e1.arg(0)
         bad = False
         for name, e in (('B == 2 log alpha', B - 2 * la), ('exp(A) == (c (n-1)!/eps)^(2/n)', A - rv(2 / n) * (lc + rv(lf) - rv(LEPS)))):
             if _lin_check(e, tol) == 'sat':
                 bad = True
-                viol.append(dict(kind='gt_freq', order=order, erb=erb, what='gammatone frequency envelope at the support edge is not the threshold: ' + name, **{'class': 'gt_freq/edge'}))
+                viol.append(dict(kind='gt_freq', order=order, erb=erb, l2=l2, what='gammatone frequency envelope at the support edge is not the threshold: ' + name, **{'class': 'gt_freq/edge'}))
         if not bad:
             dis += 1
     return dict(obligations=ob, discharged=dis, violations=viol, samples=[{'config': cfg['name']}], twin=dis > 0)
